@@ -167,6 +167,22 @@ PROPS = {
         ],
         "assumptions": ["timing is measured on this machine under load from the other 15 cores; the growth threshold is deliberately loose"],
     },
+    "C16": {
+        "level": "proof",
+        "streams": ["C16"],
+        "generated_obligations": 1,
+        "rule": "round trip on the implementation: 36 child shapes (every term former, binders implicit / unannotated / with unused variable, "
+                "groups, applications as domains, negative operands) in each of 36 operand positions (every position of every former), "
+                "exhaustively, and a quarter (all) of the two-level nestings; generated programs with re-used names. Each is parsed, printed, "
+                "and the printed text tokenized and parsed again in the same scope; the two terms must be equal up to hole identity and shift. "
+                "Printer model: printed token kinds of the implementation vs the extracted `print` on all terms <= 3 nodes and random terms. "
+                "Non-trivial: the source parses; distinct by text.",
+        "trusted_base": TB_COMMON + [
+            "translator: the partition of the 23 formers by `group` (bare vs parenthesised) is regenerated from term.rs",
+            "modelled, not verified: Display is mirrored by hand in coq/Model/Printer.v (token kinds only; names are not modelled)",
+        ],
+        "assumptions": ["terms containing negative literals are outside the property (the parser never produces them)"],
+    },
 }
 
 NOT_APPLICABLE = {}
@@ -270,5 +286,15 @@ MANIFEST_TEXT = {
         "design_ref": "DESIGN.md section 4, C17",
         "note": "Thresholds: misses <= 36*(tokens+1); scans <= 2*(tokens+1)^2; time x6 + 3 ms per doubling.",
         "technique": "generated all-memoised obligation (vm_compute) + hook counters against the packrat bound + scaling measurement",
+    },
+    "C16": {
+        "text": "The round-trip is checked on the implementation itself for every term former in every operand position of every other "
+                "(exhaustive at one level, sampled at two) and for generated programs; the printer model (Coq, over the bare/parenthesised "
+                "partition regenerated from term.rs) must print the same token kinds as the implementation. Partial proof: the universal "
+                "round-trip theorem needs parser completeness on printed terms and is not proved; one genuine violation is a recorded "
+                "finding (D12, pinned by a test in the repository).",
+        "design_ref": "DESIGN.md section 4, C16; section 5 D12, D13",
+        "note": "A failure is attributed to D12 only if the term contains an implicit function type with unused variable and the implementation printed exactly what the model prints.",
+        "technique": "metamorphic round-trip on the implementation (exhaustive parent x child positions) + Coq printer model differential testing + generated partition obligation",
     },
 }
